@@ -926,7 +926,14 @@ func newIntFloatLinkedMap(c ctor) *inst {
 			return func() []interface{} { return drainEnum(en, m.Size(), dm) }
 		},
 		toK: toI32, kTok: i32Tok, less: lessI32, toW: wf32, wTok: f32Tok}
-	return a.inst()
+	it := a.inst()
+	it.toBytes = func() []byte {
+		o := gio.NewDataOutputX()
+		m.ToBytes(o)
+		return o.ToByteArray()
+	}
+	it.toObjectBytes = func(b []byte) { m.ToObject(gio.NewDataInputX(b)) }
+	return it
 }
 
 func newLongFloatLinkedMap(c ctor) *inst {
@@ -949,7 +956,14 @@ func newLongFloatLinkedMap(c ctor) *inst {
 			return func() []interface{} { return drainEnum(en, m.Size(), dm) }
 		},
 		toK: toI64, kTok: i64Tok, less: lessI64, toW: wf32, wTok: f32Tok}
-	return a.inst()
+	it := a.inst()
+	it.toBytes = func() []byte {
+		o := gio.NewDataOutputX()
+		m.ToBytes(o)
+		return o.ToByteArray()
+	}
+	it.toObjectBytes = func(b []byte) { m.ToObject(gio.NewDataInputX(b)) }
+	return it
 }
 
 func newStringIntLinkedMap(c ctor) *inst {
